@@ -56,10 +56,12 @@ class Group(Harness):
         cols["rid"] = rid_col(n)
         return {"data": Frame(cols), "by": by, "mode": self.mode}
     def regions(self, inp):
-        fake = {"data": inp["data"], "cols": inp["by"]}
-        s = Subset("unique", "f", 0)
-        regs = s.regions(fake)
-        # a 0-row frame: (a) float/datetime key -> nanmin of empty, (b) plain-function aggregator -> one empty slice
+        from .c03 import Sort
+        data = inp["data"]
+        regs = dict(Sort(["f"], 0).regions({"data": data, "by": [[b, 1] for b in inp["by"]]}))
+        regs.pop("sort-int64-min-descending", None)
+        if self.mode == "modify":
+            regs["grouped-modify-zero-rows"] = T(len(data.cols["rid"]) == 0)
         return regs
     def spec(self, inp, out):
         if isinstance(out, Raised):
